@@ -263,5 +263,124 @@ UNITS_C03 += [referents_unit("unwrap_async_generator_asend_athrow", "ag_frame"),
               referents_unit("unwrap_coroutine_wrapper", "cr_frame")]
 UNITS_C07 = [THREAD_UNIT]
 UNITS_C14 = [TASK_UNIT, NURSERY_UNIT]
+# ------------------------------------------------------------------------------------------------ C09 / C11: generator-based managers
+GC_ = G + "glue_contextlib."
+
+
+def gcm_setup(ex, p):
+    mgr = sym_ref(p, "mgr", "gcm")
+    c = sym_ref(p, "context", "Context")
+    p.pc.append(Val.is_boolv(p.getf(c.t, "is_exiting")))
+    gen = p.getf(mgr.t, "gen")
+    p.pc.append(is_kind(gen, ["generator", "async_generator"]))          # _GeneratorContextManagerBase.gen
+    inner = p.getf(c.t, "inner_stack")
+    fr = p.getf(inner, "frames")
+    p.pc.append(Or(Val.is_none(inner), And(is_kind(inner, "Stack"), is_exact_kind(fr, "list"), p.length(fr) >= 0)))
+    p.env.update(mgr=mgr, context=c)
+    return dict(mgr=mgr, context=c)
+
+
+def str_oracle(name):
+    def model(ex, p, args, kwargs, node):
+        return [("ok", p, ex.new_str(p))]
+    return model
+
+
+def gcm_elab_post(ctx):
+    c, mgr = ctx.args["context"].t, ctx.args["mgr"].t
+    H0, H = ctx.H0, ctx.H
+    calls = [t for t in ctx.p.trace if t[0] == "extract_child"]
+    exiting = Val.b(H0.getf(c, "is_exiting"))
+    gen = H0.getf(mgr, "gen")
+    if calls:
+        (item, ft), (_, st) = calls[0][1], calls[0][2]
+        body = And(Not(exiting), BoolVal(len(calls) == 1), item == gen, ft == mkbool(False), H.getf(c, "inner_stack") == st)
+    else:
+        body = And(exiting, H.getf(c, "inner_stack") == H0.getf(c, "inner_stack"))
+    return And(body, is_exact_kind(H.getf(c, "description"), "str"), H.getf(c, "obj") == H0.getf(c, "obj"),
+               H.getf(c, "children") == H0.getf(c, "children"), H.getf(c, "hide") == H0.getf(c, "hide"))
+
+
+GCM_ELAB = Unit("C09.elaborate_generatorbased_contextmanager", GC_ + "elaborate_generatorbased_contextmanager", gcm_setup,
+                post=[Clause("C09.gcm.inner_stack_unless_exiting", gcm_elab_post)],
+                bindings=dict(EXTRACT_BINDINGS, format_funcall=str_oracle("format_funcall"),
+                              **{"_extract.extract_child": contract_extract_child_glue}),
+                methods=dict(STD_METHODS), ctors=dict(CTORS), known_classes=KNOWN,
+                assumptions=["format_funcall is total (format_funcname catches AttributeError; reprs are total)"])
+
+ucg_result = Function("unwrap_context_generator_result", Val, Val, Val)
+eo_frame = Function("extract_outermost_result", Val, Val)
+eo_fails = Function("extract_outermost_no_frames", Val, BoolSort())
+
+
+def gcm_unwrap_setup(ex, p):
+    a = gcm_setup(ex, p)
+    reg = sym_ref(p, "ucg_registry", "IdentityDict")
+    ex.unit.bindings["unwrap_context_generator.registry"] = SV(reg.t, ty="IdentityDict")
+
+    def ucg(ex_, p_, args, kw, node):
+        p_.trace = p_.trace + [("unwrap_context_generator", (args[0].t, args[1].t), None)]
+        return oracle("unwrap_context_generator", record=False,
+                      post=[lambda pa, r, a_: r == ucg_result(a_[0].t, a_[1].t)])(ex_, p_, args, kw, node)
+
+    def eo(ex_, p_, args, kw, node):
+        # extract_outermost(gen): its first frame, or RuntimeError when there are none (unit C13.extract_outermost);
+        # other recorded errors propagate
+        t, f = ex_.fork(p_, Not(eo_fails(args[0].t)))
+        res = []
+        if t is not None:
+            fr = eo_frame(args[0].t)
+            t.pc += [is_kind(fr, "Frame"), Val.a(fr) >= 0]
+            res.append(("ok", t, SV(fr, ty="Frame")))
+        if f is not None:
+            for kn in ("RuntimeError", "OtherException"):
+                q = f.clone()
+                e = q.new_obj(kn)
+                q.ghost["raised"] = q.ghost.get("raised", ()) + (e,)
+                q.ghost["eo_raised"] = kn
+                res.append(("raise", q, SV(e, site="extract_outermost")))
+        return res
+    ex.unit.bindings["unwrap_context_generator"] = ucg
+    ex.unit.bindings["_extract.extract_outermost"] = eo
+    a["reg"] = reg
+    return a
+
+
+def gcm_unwrap_post(ctx):
+    c, mgr, reg = ctx.args["context"].t, ctx.args["mgr"].t, ctx.args["reg"].t
+    H0 = ctx.H0
+    gen = H0.getf(mgr, "gen")
+    has_gi, has_ag = hasattr_fn("gi_code")(gen), hasattr_fn("ag_code")(gen)
+    code = If(has_gi, H0.getf(gen, "gi_code"), H0.getf(gen, "ag_code"))
+    registered = And(Or(has_gi, has_ag), H0.dhas(reg, code))
+    inner = H0.getf(c, "inner_stack")
+    frames = H0.getf(inner, "frames")
+    calls = [t for t in ctx.p.trace if t[0] == "unwrap_context_generator"]
+    r = ctx.result.t
+    if calls:
+        fr, cc = calls[0][1]
+        return And(registered, BoolVal(len(calls) == 1), cc == c, r == ucg_result(fr, c),
+                   If(Val.is_none(inner), fr == eo_frame(gen),
+                      And(H0.length(frames) > 0, fr == ctx.p.elem(frames, 0, H0))))
+    # no dispatch: not registered, or the inner stack exists but is empty, or (exiting) the generator has no frames
+    return And(Val.is_none(r), Or(Not(registered), And(Not(Val.is_none(inner)), H0.length(frames) == 0),
+                                  And(Val.is_none(inner), eo_fails(gen))))
+
+
+def gcm_unwrap_raise_ok(ctx):
+    # only errors of the hook itself or non-RuntimeError errors recorded by extract_outermost propagate
+    return BoolVal(ctx.p.ghost.get("eo_raised") != "RuntimeError" and bool(ctx.p.ghost.get("raised")))
+
+
+from .c12 import IDV_METHODS  # noqa: E402
+
+GCM_UNWRAP = Unit("C11.unwrap_generatorbased_contextmanager", GC_ + "unwrap_generatorbased_contextmanager", gcm_unwrap_setup,
+                  post=[Clause("C11.gcm_dispatch", gcm_unwrap_post)],
+                  bindings=dict(EXTRACT_BINDINGS), methods={**STD_METHODS, **IDV_METHODS}, ctors=dict(CTORS),
+                  known_classes=KNOWN, field_types={"frames": "list"}, allowed_raise=gcm_unwrap_raise_ok,
+                  assumptions=["inner_stack.frames is a sequence (Stack dataclass)"])
+
+UNITS_C09 = [GCM_ELAB]
+UNITS_C11 = [GCM_UNWRAP]
 UNITS_C15 = [GREENLET_UNIT]
-UNITS = UNITS_C03 + UNITS_C07 + UNITS_C14 + UNITS_C15
+UNITS = UNITS_C03 + UNITS_C07 + UNITS_C14 + UNITS_C15 + UNITS_C09 + UNITS_C11
